@@ -852,14 +852,14 @@ type argRec struct {
 }
 
 func (a *argRec) fields() []zap.Field {
-	if a.f == nil {
+	if a.f == nil && len(a.specs) > 0 {
 		a.f = toFields(a.specs, 2)
 	}
 	return a.f
 }
 
 func (a *argRec) sugar() []interface{} {
-	if a.s == nil {
+	if a.s == nil && len(a.specs) > 0 {
 		a.s = toSugar(a.specs)
 	}
 	return a.s
@@ -887,22 +887,34 @@ func (a *argRec) changed() string {
 	if a.s != nil {
 		k := 0
 		for _, sp := range a.specs {
-			var w []interface{}
-			switch sp.kind {
-			case kInt:
-				w = []interface{}{sp.key, sp.i}
-			case kStr:
-				w = []interface{}{sp.key, sp.s}
-			case kMut:
-				w = []interface{}{sp.key, sp.m}
-			default:
-				w = []interface{}{sp.field()}
-			}
-			for _, x := range w {
-				if k >= len(a.s) || a.s[k] != x {
-					return fmt.Sprintf("[]interface{} element %d changed (caller passed %v)", k, x)
+			ok := true
+			if sp.kind == kNS || sp.kind == kSkip {
+				ok = k < len(a.s)
+				if ok {
+					g, isF := a.s[k].(zap.Field)
+					ok = isF && g == sp.field()
 				}
 				k++
+			} else {
+				ok = k+1 < len(a.s)
+				if ok {
+					key, isS := a.s[k].(string)
+					ok = isS && key == sp.key
+					switch v := a.s[k+1].(type) {
+					case int64:
+						ok = ok && sp.kind == kInt && v == sp.i
+					case string:
+						ok = ok && sp.kind == kStr && v == sp.s
+					case *mut:
+						ok = ok && sp.kind == kMut && v == sp.m
+					default:
+						ok = false
+					}
+				}
+				k += 2
+			}
+			if !ok {
+				return fmt.Sprintf("the []interface{} differs from what the caller passed at the element(s) of field %q: now %v", sp.key, a.s)
 			}
 		}
 		if k != len(a.s) {
